@@ -98,6 +98,29 @@ class Unit:
         return names if all_overloads else names[0]
 
     def generate(self):
+        text = self._generate_once()
+        em = self.em
+        # may-throw closure over the call graph (second pass re-emits with propagation checks after raising calls)
+        thr = set(em.direct_throw)
+        changed = True
+        while changed:
+            changed = False
+            for f, cs in em.calls.items():
+                if f not in thr and cs & thr: thr.add(f); changed = True
+        if thr and thr != set(em.throwing):
+            cfg = dict(em.cfg); cfg['throwing'] = sorted(thr)
+            old = self.em
+            self.em = Emitter(self.ix, cfg)
+            roots = dict(self.roots); self.roots = {}
+            for cn, f in roots.items():
+                self.roots[self.em.request_func(f)] = f
+            for extra in getattr(self, 'extra_requests', []): extra(self.em)
+            text = self._generate_once()
+            if set(self.em.direct_throw) - thr:
+                raise Cxx2cError('may-throw closure did not converge')
+        return text
+
+    def _generate_once(self):
         em = self.em
         em.run_queue()
         structs, protos, funcs = [], [], []
